@@ -11,7 +11,9 @@ S=/dev/shm/seed_$ID; rm -rf $S; mkdir -p $S; cp -r /repo/src /repo/tests /repo/s
 cd $S
 echo "== demo without the change"; PYTHONPATH=$S/src /venv/bin/python -W ignore $OUT/demo.py > $OUT/demo_without.txt 2>&1; D0=$?; tail -1 $OUT/demo_without.txt | cut -c1-200; echo "exit $D0"
 patch -p1 -s < $OUT/patch.diff || { echo "PATCH DOES NOT APPLY to the current tree"; exit 3; }
+if [ -z "$SKIP_SUITE" ]; then
 echo "== suite with the change"; PYTHONPATH=$S/src /venv/bin/python -m pytest -q -p no:cacheprovider tests --deselect tests/tests_plots/test_animation.py 2>&1 | tail -1 | tee $OUT/suite_with_change.txt
+fi
 echo "== demo with the change"; PYTHONPATH=$S/src /venv/bin/python -W ignore $OUT/demo.py > $OUT/demo_with.txt 2>&1; D1=$?; tail -1 $OUT/demo_with.txt | cut -c1-200; echo "exit $D1"
 cd /verif
 RES=""
